@@ -91,6 +91,18 @@ Proof.
   cbn [snd] in T. apply N.ltb_lt. exact T.
 Qed.
 
+(* the minus sign is neither a letter nor a digit nor a rune with an upper-case ASCII image: a line comment start
+   never lies inside a word *)
+Lemma nl45 : letter 45 = false. Proof. vm_compute. reflexivity. Qed.
+Lemma nd45 : digit 45 = false. Proof. vm_compute. reflexivity. Qed.
+Lemma up_keys_not45 : forallb (fun kv : N * N => negb (fst kv =? 45)) upper_ascii_tab = true.
+Proof. vm_compute. reflexivity. Qed.
+Lemma up_key45 : forall x u, upper x = Some u -> x <> 45.
+Proof.
+  intros x u H. apply assoc_in in H. pose proof up_keys_not45 as T. rewrite forallb_forall in T. specialize (T _ H).
+  cbn [fst] in T. apply N.eqb_neq. apply negb_true_iff. exact T.
+Qed.
+
 (* the keyword table holds upper-case ASCII letters only (so that a converted keyword is a fixed point) *)
 Lemma keywords_upper : forallb (forallb (fun b => (65 <=? b) && (b <=? 90))) keywords_tab = true.
 Proof. vm_compute. reflexivity. Qed.
